@@ -703,9 +703,15 @@ with builtin_call (n : nat) (fr : list frame) (b : builtin) (args : list value) 
       match args with
       | [] => badarg
       | _ => if truthy a1 then ret args
-             else match args with
-                  | [_] => raise (VStr s_assertion_failed)
-                  | _ => raise a2
+             else (* luaL_error: the message gains the position of assert's caller *)
+                  let pfx := match fr with (Some l, _) :: _ => pos_prefix l | _ => [] end in
+                  match args with
+                  | [_] => raise (VStr (pfx ++ s_assertion_failed))
+                  | _ => match a2 with
+                         | VStr m => raise (VStr (pfx ++ m))
+                         | VNil => raise (VStr (pfx ++ s_assertion_failed))
+                         | _ => unsup 20
+                         end
                   end
       end
   | BCoCreate =>
